@@ -940,7 +940,35 @@ pub fn gen_malformed(rng: &mut Rng) -> Module {
             // imports are per module: a module without imports does not see its parent's
             let util_f = ("f".to_string(), body(vec![Card::return_card(int(1))]));
             let child_calls = |name: &str| Module { functions: vec![("g".into(), body(vec![Card::set_var("q", Card::call_function(name, vec![]))]))], ..Default::default() };
-            let a = match rng.below(3) {
+            let a = match rng.below(5) {
+                3 | 4 => {
+                    // `super.` counted against the depth of the importing module: a chain of `depth`
+                    // modules below `aa`, the innermost imports through k levels (k up to depth + 3)
+                    // either the function (`super.….lib.helper`, called as `helper`) or the module
+                    // (`super.….lib`, called as `lib.helper`); `lib` sits where k = `at` levels up lands
+                    let depth = rng.range(1, 4) as usize;
+                    let k = rng.range(1, depth as i64 + 4) as usize;
+                    let at = rng.range(1, depth as i64 + 2) as usize;
+                    let by_module = rng.chance(1, 2);
+                    let sup = "super.".repeat(k);
+                    let (import, callee) = if by_module { (format!("{sup}lib"), "lib.helper") } else { (format!("{sup}lib.helper"), "helper") };
+                    let lib = Module { functions: vec![("helper".into(), body(vec![Card::return_card(int(7))]))], ..Default::default() };
+                    let mut node = child_calls(callee);
+                    node.imports.push(import);
+                    // levels are counted from the innermost module (level 0) upwards
+                    for lvl in 1..=depth {
+                        let mut parent = Module { functions: vec![("own".into(), body(vec![int(1)]))], ..Default::default() };
+                        parent.submodules.push((format!("m{lvl}"), node));
+                        if lvl == at {
+                            parent.submodules.push(("lib".into(), lib.clone()));
+                        }
+                        node = parent;
+                    }
+                    if at > depth {
+                        m.submodules.push(("lib".into(), lib.clone()));
+                    }
+                    node
+                }
                 0 => Module {
                     imports: vec!["super.util.f".into()],
                     functions: vec![("own".into(), body(vec![int(1)]))],
@@ -1052,7 +1080,9 @@ pub fn gen_alloc_program(rng: &mut Rng, size: usize, with_submodules: bool) -> M
     // t0: a table with a few entries; s0: strings
     pre.push(Card::set_var("t0", c(CardBody::Array((0..rng.range(1, 5)).map(|i| int(10 - i)).collect()))));
     pre.push(Card::set_var("t00", c(CardBody::CreateTable)));
-    let n = rng.range(1, 6);
+    // (up to 15 rows: the hash part grows at the 6th, 9th and 13th key, with values that only
+    // the table references)
+    let n = if rng.chance(1, 2) { rng.range(1, 6) } else { rng.range(6, 16) };
     pre.push(c(CardBody::Repeat(Box::new(Repeat {
         i: Some("i0".into()),
         n: int(n),
